@@ -411,6 +411,14 @@ func (e *Engine) symbolic(st *State, t types.Type, name string) Val {
 		if _, ok := u.Elem().Underlying().(*types.Struct); ok {
 			return PtrV{Nil: e.fresh(name+"_nil", "Bool"), Elem: u.Elem(), Name: e.uniqSym(name)}
 		}
+		if _, ok := u.Elem().Underlying().(*types.Slice); ok && e.cfg.Effects && st != nil {
+			// *[]T (optional slices): a possibly nil pointer to a variable holding an unknown slice
+			c := e.newCell(u.Elem(), name+"_pointee")
+			content := e.symbolic(st, u.Elem(), name+"_deref")
+			st.cells[c] = content
+			e.inputCells[c] = content
+			return AddrV{Cell: c, Nil: e.fresh(name+"_nil", "Bool")}
+		}
 	case *types.Struct:
 		return StructV{Typ: u, F: make([]Val, u.NumFields()), Sym: e.uniqSym(name)}
 	case *types.Tuple:
